@@ -122,7 +122,8 @@ def run(ctx):
                     continue
                 closures = [sym('body1'), sym('body2')][:nseq]
                 args = [sym('self')] + ([sym('position')] if suffix else []) + [sym('ty')] + closures
-                ws = ev.run_fn(p, args)
+                from heval import local_policy
+                ws = Evaluator(F, local_policy(F, p, public_events=True)).run_fn(p, args)
                 if len(ws) != 1:
                     res.bad(key, '`%s` is not a single straight path' % mn)
                     continue
